@@ -38,6 +38,8 @@ def run(repo, rep, tier):
     inv = [
         Lin(0, {"len(self._data)": 1, "self.num_rows": -1}),
         Lin(0, {"len(self._data)": -1, "self.num_rows": 1}),
+        Lin(0, {"self.num_rows": 1}),
+        Lin(0, {"self.num_cols": 1}),
     ]
     for name, (count, start, axis) in EDITORS.items():
         f = repo.func("document.py", f"Table.{name}")
@@ -168,7 +170,7 @@ def check_adder(repo, rep, f, g, ga, name, count, start, axis, attr, upd):
         okw2 = len(a) == 3 and a[2] == "default"
         rep.ob("C03.R2", w, f"Table.{name}: default fill addresses (row, col)", okw2 and ("row" in a[0] and "col" in a[1]), "", key=f"C03.R2@{name}:fill-args")
     # start guard
-    check_start_guard(rep, f, name, start, attr)
+    check_start_guard(rep, f, name, start, attr, ga, ins, upd, count)
 
 
 def _comp_var_over(node, var, bound):
@@ -190,51 +192,88 @@ def _comp_var_over(node, var, bound):
 _enclosing_loop_over = _comp_var_over
 
 
-def check_start_guard(rep, f, name, start, attr):
-    guards = [n for n in f.body if isinstance(n, ast.If) and any(isinstance(x, ast.Raise) for x in n.body) and start in U(n.test)]
-    ok = False
-    for gd in guards:
-        t = U(gd.test).replace(" ", "")
-        ok = ok or (f"{start}isnotNone" in t and f"{start}<0" in t and (f"{start}>={attr}" in t or f"{start}>{attr}-1" in t))
-        ok = ok and "IndexError" in U(gd.body[-1])
-    rep.ob("C03.R1", guards[0] if guards else f, f"Table.{name}: `{start}` checked against 0 <= {start} < {attr} (IndexError)", ok,
-           "" if ok else "an out-of-range start index is not refused", key=f"C03.R1@{name}:start-guard")
+def check_start_guard(rep, f, name, start, attr, ga=None, ins=None, upd=None, count=None):
+    """Adders: the insertion index lies within [0, old size] for every argument (facts at the insertion)."""
+    if ga is None or ins is None:
+        return
+    g = cfgmod.build(f)
+    anchor = ins
+    if upd is not None and g.dominates(g.node_of(upd), g.node_of(ins)):
+        # evaluate right after the counter update (the insertion may sit in a loop whose body calls write())
+        blk = getattr(getattr(upd, "_parent", None), "body", [])
+        if upd in blk and blk.index(upd) + 1 < len(blk):
+            anchor = blk[blk.index(upd) + 1]
+    facts = ga.facts_at(anchor)
+    S = Lin(0, {start: 1})
+    old = Lin(0, {attr: 1})
+    if upd is not None and g.dominates(g.node_of(upd), g.node_of(ins)):
+        old = old - Lin(0, {count: 1})
+    lo = facts is not None and facts.entails(S)
+    hi = facts is not None and facts.entails(old - S)
+    rep.ob("C03.R1", ins, f"Table.{name}: insertion index `{start}` is within [0, old size] for every argument", lo and hi,
+           "" if lo and hi else f"no guard establishes {'0 <= ' + start if not lo else start + ' <= size'}: a negative or too large index inserts at a wrong place silently (facts: {facts})",
+           key=f"C03.R1@{name}:start-guard")
 
 
 def check_renumber(rep, f, g, name, axis, start, attr, upd, mut, adding):
     """Cells whose position changed are renumbered with matching axes."""
-    stores = [n for n in body_walk(f) if isinstance(n, ast.Assign) and isinstance(n.targets[0], ast.Attribute) and n.targets[0].attr in ("row", "col")
-              and U(n.targets[0].value).startswith("self._data[")]
+    stores = []  # (statement, row index text, col index text, attribute)
+    for n in body_walk(f):
+        if not (isinstance(n, ast.Assign) and isinstance(n.targets[0], ast.Attribute) and n.targets[0].attr in ("row", "col")):
+            continue
+        base = n.targets[0].value
+        if isinstance(base, ast.Subscript) and isinstance(base.value, ast.Subscript) and U(base.value.value) == "self._data":
+            stores.append((n, U(base.value.slice), U(base.slice), n.targets[0].attr))
+        elif isinstance(base, ast.Name):
+            # ``for idx, cell in enumerate(self._data[r]): cell.col = idx``
+            p = getattr(n, "_parent", None)
+            while p is not None and p is not f:
+                if isinstance(p, ast.For) and isinstance(p.iter, ast.Call) and call_name(p.iter) == "enumerate" and isinstance(p.target, ast.Tuple) \
+                        and len(p.target.elts) == 2 and U(p.target.elts[1]) == base.id:
+                    src = p.iter.args[0]
+                    if isinstance(src, ast.Subscript) and U(src.value) == "self._data":
+                        stores.append((n, U(src.slice), U(p.target.elts[0]), n.targets[0].attr))
+                    break
+                p = getattr(p, "_parent", None)
     if not stores:
         rep.ob("C03.R2", f, f"Table.{name}: renumbering present", False, "no cell is renumbered after the edit", key=f"C03.R2@{name}:renumber")
         return
-    for st in stores:
-        sub = st.targets[0].value  # self._data[r][c]
-        r_idx, c_idx = U(sub.value.slice), U(sub.slice)
-        want = r_idx if st.targets[0].attr == "row" else c_idx
+    for st, r_idx, c_idx, attr_ in stores:
+        want = r_idx if attr_ == "row" else c_idx
         ok = U(st.value) == want
-        rep.ob("C03.R2", st, f"Table.{name}: `{U(st)}`", ok, "" if ok else "a cell is given the index of the wrong axis or of another cell", key=f"C03.R2@{name}:axis:{st.targets[0].attr}")
+        rep.ob("C03.R2", st, f"Table.{name}: `{U(st)}` for the cell at [{r_idx}][{c_idx}]", ok, "" if ok else "a cell is given the index of the wrong axis or of another cell", key=f"C03.R2@{name}:axis:{attr_}")
         muts = mut if isinstance(mut, list) else [mut]
         ok2 = cfgmod.precedes_on_all_paths(f, [m for m in muts if m is not None], st) if mut is not None else True
-        rep.ob("C03.R2", st, f"Table.{name}: renumbering after the grid edit", ok2, "" if ok2 else "renumbering runs before the grid is edited", key=f"C03.R2@{name}:after:{st.targets[0].attr}")
+        rep.ob("C03.R2", st, f"Table.{name}: renumbering after the grid edit", ok2, "" if ok2 else "renumbering runs before the grid is edited", key=f"C03.R2@{name}:after:{attr_}")
     # coverage of the moved axis
     moved_attr = axis  # 'row' or 'col'
-    mv = [st for st in stores if st.targets[0].attr == moved_attr]
+    mv = [x for x in stores if x[3] == moved_attr]
     if not mv:
         rep.ob("C03.R2", f, f"Table.{name}: moved {axis}s renumbered", False, f"no `.{moved_attr} =` store", key=f"C03.R2@{name}:moved")
         return
-    st = mv[0]
+    st = mv[0][0]
     idx_var = U(st.value)
     loop = None
     p = getattr(st, "_parent", None)
+    enum_loop = None
     while p is not None and p is not f:
         if isinstance(p, ast.For) and U(p.target) == idx_var:
             loop = p
             break
+        if isinstance(p, ast.For) and isinstance(p.target, ast.Tuple) and p.target.elts and U(p.target.elts[0]) == idx_var \
+                and isinstance(p.iter, ast.Call) and call_name(p.iter) == "enumerate" and len(p.iter.args) == 1:
+            enum_loop = p
+            break
         p = getattr(p, "_parent", None)
     ok = False
     detail = "the renumber loop over the moved axis was not recognised"
-    if loop is not None and isinstance(loop.iter, ast.Call) and call_name(loop.iter) == "range":
+    if enum_loop is not None:
+        # enumerate() over the container visits every element: complete provided it runs after the edit
+        loop = enum_loop
+        src = U(enum_loop.iter.args[0])
+        ok = src.startswith("self._data") and (mut is None or cfgmod.precedes_on_all_paths(f, mut if isinstance(mut, list) else [mut], enum_loop))
+        detail = "" if ok else "enumeration does not run over the grid after the edit"
+    elif loop is not None and isinstance(loop.iter, ast.Call) and call_name(loop.iter) == "range":
         args = loop.iter.args
         lo = lin(args[0]) if len(args) == 2 else Lin(0)
         hi = args[-1]
@@ -329,7 +368,6 @@ def check_deleter(repo, rep, f, g, ga, name, count, start, axis, attr, upd):
             detail = "slice shape not recognised"
         rep.ob("C03.R1", d, f"Table.{name}: `del {U(t)}` removes exactly {count}", ok, detail, key=f"C03.R1@{name}:del:{'idx' if hi is not None else 'end'}")
     check_renumber(rep, f, g, name, axis, start, attr, upd, dels, adding=False)
-    check_start_guard(rep, f, name, start, attr)
 
 
 def check_constructors(repo, rep):
